@@ -125,6 +125,12 @@ def target_case(draw):
         mods[-1]["by_expr"] = None
         mods[-1]["val"] = draw(st.sampled_from(["9007199254740993", "1234567890123456789", "4611686018427387905"]))
         mods[-1]["unit"] = None
+    fail_at = draw(st.integers(0, nmods - 1))
+    const_after_mod = False
+    if fail == "constant" and nmods >= 2 and not declared and draw(st.booleans()):
+        # '!constant' written below a MODIFICATION (another node was defined in between): it marks the modified node
+        const_after_mod = True
+        fail_at = max(1, fail_at)
     if fail == "undeclared":
         declared = True
         first = None
@@ -132,7 +138,7 @@ def target_case(draw):
         fail = "type"
     return {"kind": kind, "type": tkw, "groups": groups, "name": tname, "dim": dim, "unit": dunit, "declared": declared,
             "first": first, "mods": mods, "custom": use_custom, "fail": fail,
-            "fail_at": draw(st.integers(0, nmods - 1)), "indent": draw(st.integers(1, 3)),
+            "fail_at": fail_at, "const_after_mod": const_after_mod, "indent": draw(st.integers(1, 3)),
             # two-stage parsing: the first `split` modifications are parsed with the definition, the rest on top of
             # the returned environment (DIP(env)); 0 = everything in one parse
             "split": draw(st.sampled_from([0, 0, 0, 1, 2])),
@@ -180,8 +186,11 @@ def render_stages(case):
             lines.append(head + " = {?hsrc}[1]")
     else:
         lines.append(head + f" = {case['first']}" + (f" {case['unit']}" if case["unit"] else ""))
-    if case["fail"] == "constant":
+    cam = case.get("const_after_mod")
+    if case["fail"] == "constant" and not cam:
         lines.append(" " * (w * (d + 1)) + "!constant")
+    if cam:
+        lines.append("mid int = 7")
     path = ".".join(case["groups"] + [case["name"]])
     mods = list(case["mods"])
     if case["fail"] == "undeclared":
@@ -218,7 +227,10 @@ def render_stages(case):
             lines.append(f"helper{i} {case['type']} = {val}" + (f" {unit}" if unit else ""))
             rhs = f"= {{?helper{i}}}"
         tpart = f" {tkw}" if typed else ""
-        if m["addr"] == "dotted" or not case["groups"]:
+        if cam and i == case["fail_at"] - 1:
+            lines.append(f"{path}{tpart} {rhs}")
+            lines.append(" " * w + "!constant")
+        elif m["addr"] == "dotted" or not case["groups"]:
             lines.append(f"{path}{tpart} {rhs}")
         elif m["addr"] == "indent":
             for j, g in enumerate(case["groups"]):
@@ -329,6 +341,8 @@ def _check(case, v):
         if case["fail"]:
             v.nt(True)
             v.label("fail_" + case["fail"])
+            if case.get("const_after_mod"):
+                v.label("constant_set_below_a_modification")
             return
         return v.fail("parse-raised", f"raised {e!r} for:\n{text}")
     if case["fail"] and not (case["fail"] == "literal" and case["kind"] == "str"):
@@ -336,7 +350,7 @@ def _check(case, v):
     keys = list(tup)
     if keys.count(path) != 1:
         return v.fail("entries", f"{path} appears {keys.count(path)} times in {keys}:\n{text}")
-    want_order = ["before"] + (["hsrc"] if case.get("first_by_slice") else []) + [path]
+    want_order = ["before"] + (["hsrc"] if case.get("first_by_slice") else []) + [path] + (["mid"] if case.get("const_after_mod") else [])
     for i, m in enumerate(case["mods"]):
         if m.get("via_ref"):
             want_order.append(f"helper{i}")
